@@ -305,7 +305,7 @@ def run_e2e(h):
     rel = lambda a, b: a in cl and b in cl and (a in cl[b] or b in cl[a])
     start = [] if h["purge"] else before
     label_only = [x for x in start if dests and len(groups[0]) > 1 and rel(x, groups[0][0]) and not rel(x, dests[0])]
-    out.update({"groups": groups, "dests": dests, "label_only_rows": label_only})
+    out.update({"kind": "e2e", "groups": groups, "dests": dests, "label_only_rows": label_only})
     shape = "%s%s-%s-%s%s%s" % (h["kind"], "-cfg:%s/%s/%s" % (table, schema, "pk" if pk else "nopk") if vc else "",
                                 "up" if "up" in st else "unknown-row", "base" if t == "base" else t if "@" in t else "id",
                                 "-purge" if h["purge"] else "", "-" + out["err"] if "err" in out else "")
@@ -409,7 +409,10 @@ def run_case(h):
     cl = {i: base._closure(par, [i]) for i in par}
     H0 = [] if h["purge"] else rows_seen
     related = [x for x in R if any(x in cl[y] or y in cl[x] for y in H0)]
-    out = {"steps": [str(x) for x in plan] if not planerr else None, "planerr": planerr, "obs": obs,
+    indom = len(set(R)) == len(R) and not any(a != b and (a in cl[b] or b in cl[a]) for a in R for b in R) and \
+        not (t != ["base"] and t != ["heads"] and not R)
+    out = {"kind": "stamp", "in_domain": indom, "steps_enc": [st(x) for x in plan] if not planerr else None,
+           "steps": [str(x) for x in plan] if not planerr else None, "planerr": planerr, "obs": obs,
            "rows_before": rows_seen, "targets": R, "related_targets": related}
     errs = sorted(set(planerr) | {x[1] for x in obs if x[0] == "err"})
     shape = "%s-%s%s%s" % (h.get("kind", "?"), "base" if t == ["base"] else "heads" if t == ["heads"] else "ids%d" % len(t),
@@ -425,6 +428,56 @@ def classify(human, out):
     if out and out.get("label_only_rows"):
         return "C05-label-head-stamp"
     return None
+
+
+# ----------------------------------------------------------------------------- canaries
+def canary(human, rec):
+    """corruptions of the observed output that violate C05 for this input"""
+    import copy
+    out = rec["out"]
+    if classify(human, out) is not None:
+        return []                                    # the observed output already fails the decider (known finding)
+    if out.get("kind") == "e2e":
+        if "err" in out:
+            return []                                # CommandError (unknown row without --purge, label with several heads): nothing claimed
+        rows, before = list(out["rows_after"]), list(out["rows_before"])
+        cans = ["OE2E (Err ECommand)"]                                         # success turned into an exception
+        if rows:
+            cans.append("OE2E (Ok %s)" % cf.nlist(rows[1:]))                   # a row lost
+            cans.append("OE2E (Ok %s)" % cf.nlist(rows + [rows[0]]))           # a duplicated row
+            cans.append("OE2E (Ok %s)" % cf.nlist([rows[0] + 7] + rows[1:]))   # an identifier changed
+        stale = [x for x in before if x not in rows]
+        cans.append("OE2E (Ok %s)" % cf.nlist(rows + [stale[0] if stale else 98]))   # a stale / foreign row left behind
+        return [c for c in cans if c != rec["cout"]]
+    if out.get("planerr") or not out.get("in_domain") or any(x[0] != "ok" for x in out["obs"]):
+        return []
+    steps, obs = out["steps_enc"], [list(x) for x in out["obs"]]
+
+    def stmt(p):
+        return "Ins %d" % p[1] if p[0] == "ins" else "Del %d %d" % (p[1], p[2]) if p[0] == "del" else "Upd %d %d %d" % (p[1], p[2], p[3])
+
+    def enc(o):
+        return "OStamp (Ok (%s, %s))" % (cf.lst(steps), cf.lst(
+            "ObsOk %s %s" % (cf.nlist(x[1]), cf.lst(stmt(p) for p in x[2])) if x[0] == "ok" else "ObsErr %s" % x[1] for x in o))
+    cans = ["OStamp (Err EAssert)"]                                            # success turned into an exception
+    if obs:
+        k = len(obs) - 1
+        o = copy.deepcopy(obs); o[k] = ["err", "EKey"]; cans.append(enc(o))   # the last step raised
+        o = copy.deepcopy(obs); del o[k]; cans.append(enc(o))                  # an observation missing
+        rows = obs[k][1]
+        if rows:
+            o = copy.deepcopy(obs); o[k][1] = rows[1:]; cans.append(enc(o))            # a row lost
+            o = copy.deepcopy(obs); o[k][1] = rows + [rows[0]]; cans.append(enc(o))    # a duplicated row
+        prev = obs[k - 1][1] if k > 0 else ([] if human["purge"] else out["rows_before"])
+        if sorted(prev) != sorted(rows):
+            o = copy.deepcopy(obs); o[k][1] = list(prev); cans.append(enc(o))          # the step left the table unchanged
+        for j, p in enumerate(obs[k][2]):
+            if p[0] != "ins":                                                          # a DELETE/UPDATE that matched no row
+                o = copy.deepcopy(obs); q = list(p); q[-1] = 0; o[k][2][j] = tuple(q); cans.append(enc(o))
+                break
+    else:
+        rows = [] if human["purge"] else list(out["rows_before"])                     # no step ran: the rows stay
+    return [c for c in cans if c != rec["cout"]]
 
 
 DESIGN_REF = "DESIGN.md section 5 C05, section 6.1 (multi-target stamp), Appendix A' (last paragraph)"
